@@ -4,6 +4,7 @@ mod common;
 mod c11;
 mod c12;
 mod c13;
+mod c18;
 mod c19;
 
 use common::*;
@@ -20,6 +21,7 @@ fn props() -> Vec<Prop> {
     Prop { id: "C11", exec: c11::exec, gen: c11::gen },
     Prop { id: "C12", exec: c12::exec, gen: c12::gen },
     Prop { id: "C13", exec: c13::exec, gen: c13::gen },
+    Prop { id: "C18", exec: c18::exec, gen: c18::gen },
     Prop { id: "C19", exec: c19::exec, gen: c19::gen },
   ]
 }
